@@ -424,7 +424,17 @@ func genC05Program(g *sim.Stream, tier string) string {
 	}
 	if g.Chance(1, 25) {
 		// rejected by the compiler after everything above was compiled
-		b.WriteString("undefined_name_zz + 1\n")
+		if g.Bool() {
+			b.WriteString("undefined_name_zz + 1\n")
+		} else {
+			// two default values the compiler does not support: which one is
+			// named in the error must not vary
+			b.WriteString("func baddef(a=[1], b={\"k\": 2}, c=(1 + 2)) { return a }\n")
+		}
+	}
+	if g.Chance(1, 10) {
+		// functions with several (supported) default values
+		fmt.Fprintf(&b, "func defs%d(a, b=2, c=\"x\", d=1.5, e=nil, f=true) { return [a, b, c, d, e, f] }\nemits(string(defs%d(1)))\nemits(string(defs%d(1, 5, \"y\")))\n", 0, 0, 0)
 	}
 	b.WriteString(cg.FinalExpr())
 	b.WriteString("\n")
